@@ -146,6 +146,15 @@ add("C14",
     "fit() with B=None takes the solver's prediction as an oracle input of the model (FitInternal).",
     "Coq proof (state-machine laws by induction over histories) + step-by-step stateful differential run against the model, exhaustive for short histories", "DESIGN.md §5 C14")
 
+add("C15",
+    "(F, all s, c > 0) gamut membership is unchanged; the solution polytope is mapped by x -> x/s (ranges scale by exactly 1/s); the weighted squared error of the twin at "
+    "x/s is c^2 times the original (scalar/vector/matrix K), so exact minimisers correspond and predictions scale by c. Tie: every problem and its rescaled twin are both run "
+    "through the real code; both fits carry the C04 weak-duality certificate in their own units and their predictions must agree up to c at the C04 accuracy of both; range "
+    "ends must scale by 1/s (rtol 1e-9); in_hull answers on relative-margin targets must coincide — evaluated in the Coq VM. Asserted only while both twins are well-scaled; a "
+    "stress stream (s, c in [2^-13, 2^13]) is recorded in the evidence, never asserted.",
+    TRUST + "Solvers/qhull opaque. Known finding D12 (absolute NNLS tolerance makes flat-gamut membership unit dependent) is reported as KNOWN-FINDING.",
+    "Coq proof over Q (equivariance algebra) + paired certified runs compared by vm_compute", "DESIGN.md §5 C15")
+
 NOT_APPLICABLE = []
 ALL = ["C%02d" % i for i in range(1, 21)]
 
